@@ -515,12 +515,16 @@ def cinit (init : Nat → Cache) (evs : Nat → List WatchEv) (n : Nat) : CState
 /-- restriction of an observed snapshot to the scope of one static informer (namespace `n`) and
 the spec for that scope in a given world -/
 def concExact (ridOf : Key → Nat) (mc : MonCfg) (worlds : List World) (got : List Entry) : Bool :=
+  let scopes : List (Nat × Option Nat) :=
+    (dedupNames mc.nss).flatMap (fun n =>
+      if mc.names.isEmpty then [(n, none)] else (dedupNames mc.names).map (fun nm => (n, some nm)))
   (got.zip got.tail).all (fun p => lessGo ridOf p.1 p.2) &&
-  got.all (fun e => mc.nss.contains e.key.ns) &&
-  (dedupNames mc.nss).all (fun n =>
-    let part := got.filter (fun e => e.key.ns == n)
+  got.all (fun e => scopes.any (fun sc => e.key.ns == sc.1 && (match sc.2 with | none => true | some nm => e.key.name == nm))) &&
+  scopes.all (fun sc =>
+    let part := got.filter (fun e => e.key.ns == sc.1 && (match sc.2 with | none => true | some nm => e.key.name == nm))
+    let mc' := { mc with nss := [sc.1], names := match sc.2 with | none => [] | some nm => [nm] }
     worlds.any (fun w =>
-      let want := specMatching { mc with nss := [n] } w
+      let want := specMatching mc' w
       part.length == want.length &&
       part.all (fun e => want.any (fun o =>
         let x := mkEntry mc.cfg o
